@@ -102,11 +102,32 @@ class JockeyDirect(ciw.routing.Direct):
         return self.simulation.nodes[self.jock]
 
 
+class JockeyAlternate(ciw.routing.Direct):
+    """the same with a STATEFUL jockeying rule (round robin over a list of destinations, restarted for every simulation): each call of
+    next_node_for_jockeying gives the next one, so calling it twice for one reneging customer is visible"""
+
+    def __init__(self, to, jocks):
+        super().__init__(to=to)
+        self.jocks = list(jocks)
+        self.calls = 0
+
+    def initialise(self, simulation, node):
+        super().initialise(simulation, node)
+        self.calls = 0
+
+    def next_node_for_jockeying(self, ind):
+        j = self.jocks[self.calls % len(self.jocks)]
+        self.calls += 1
+        return self.simulation.nodes[j]
+
+
 def _node_router(r):
     k = r['kind']
     R = ciw.routing
     if k == 'jockey':
         return JockeyDirect(to=r['to'], jock=r['jock'])
+    if k == 'jockey_alt':
+        return JockeyAlternate(to=r['to'], jocks=r['jocks'])
     if k == 'direct':
         return R.Direct(to=r['to'])
     if k == 'leave':
